@@ -45,7 +45,7 @@ pub fn replay(ctx: &Ctx, path: &str) -> i32 {
 pub fn replay_special(_ctx: &Ctx, case: &serde_json::Value) -> i32 {
     match case["kind"].as_str() {
         Some("c05") => return c05::replay(case),
-        Some("c06") | Some("c06x") => return c06::replay(case),
+        Some("c06") | Some("c06x") | Some("c06d") => return c06::replay(case),
         Some("c07") => return c07::replay(case),
         Some("c09") => return c09::replay(case),
         Some("init") | Some("init-fault") => return c11::replay(case),
